@@ -149,15 +149,13 @@ func parseSegments(version string) ([]segment, error) {
 
 	// Add prerelease segments
 	if prereleasePart != "" {
+		// RubyGems reads "-" as ".pre.": 1.0.0-rc1 is 1.0.0.pre.rc1
+		segments = append(segments, createSegment("pre"))
 		prereleaseParts := strings.Split(prereleasePart, ".")
 		for _, part := range prereleaseParts {
 			if part != "" {
-				// Prerelease parts are always treated as non-numeric for comparison purposes
-				segments = append(segments, segment{
-					value:     strings.ToLower(part),
-					isNumeric: false,
-					numValue:  0,
-				})
+				// Numbers inside the prerelease compare as numbers (rc2 < rc10)
+				segments = append(segments, createSegment(part))
 			}
 		}
 	}
